@@ -124,6 +124,11 @@ def mainC02 (args : List String) : IO Unit := do
   else if args == ["switches"] then
     for s in extractedSwitches do
       IO.println s!"switch {s.name} reads={s.reads} on_when={s.onWhen} default_on={s.defaultOn} at={s.sites}"
+    let vals := modelledSwitches.map fun n =>
+      match (extractedSwitches.find? (·.name == n)).bind nonDefaultValue with
+      | some v => s!"{n}={v}"
+      | none => s!"{n}=?"
+    IO.println s!"modelled {" ".intercalate vals}"
     IO.println s!"quick {" ".intercalate (quickConfigs.map showCfg)}"
     IO.println s!"thorough {" ".intercalate (allConfigs.map showCfg)}"
   else
